@@ -13,3 +13,17 @@ pub mod session;
 mod slot;
 pub mod slowlog;
 mod table;
+
+// Verification hooks (no behaviour change): re-export private modules for the /verif harness.
+#[cfg(undermoon_verif)]
+pub mod verif_export {
+    pub mod compress {
+        pub use super::super::compress::*;
+    }
+    pub mod slot {
+        pub use super::super::slot::*;
+    }
+    pub mod table {
+        pub use super::super::table::*;
+    }
+}
